@@ -8,7 +8,7 @@ import ast
 from ..gen import EXTRA, REPO, Kernel, Untranslatable, all_stmts, assign_value, find_assign, register, straightline
 from ..pyexpr import emit_def, parse_file, translate_block
 from .c04 import F, MG, Tr, if_assign
-from .c05 import GENERATORS as C05_GENERATORS, SUB, TableBuilder, temp_seed_shape
+from .c05 import GENERATORS as C05_GENERATORS, PLUMBING_EXPECTED, SUB, TableBuilder, plumbing, temp_seed_shape
 
 RD = ("DirectVerif.Model.MaskGeom", "DirectVerif.Model.C06Round")
 
@@ -416,7 +416,7 @@ def seed_tables() -> dict:
     for w in sc.shared_state():
         if w not in writes:
             writes.append(w)
-    return {"poisson_order": _poisson_order(tree),
+    return {"poisson_order": _poisson_order(tree), "plumbing": plumbing(),
             "temp_seed": temp_seed_shape(tree), "temp_seed_args": _temp_seed_args(tree), "writes": writes,
             "plans": sorted(plans.items()), "rows": rows, "reached": sorted(sc.reached)}
 
@@ -466,7 +466,8 @@ def _seed_extra():
                 'def callPlans : List (String × List String) := [("BaseMaskFunc", ["guard", "guard", "forward"])]\n'
                 "def seedParams : List (String × Bool × Bool × Bool) :=\n  ["
                 + ", ".join(f'("{g}", true, false, true)' for g in C05_GENERATORS) + "]\n"
-                'def poissonOrder : List String := ["raster", "crop", "disc"]\n')
+                'def poissonOrder : List String := ["raster", "crop", "disc"]\n'
+                "def callSitePlumbing : List (String × Bool) := [" + ", ".join(f"({_q(x)}, true)" for x in PLUMBING_EXPECTED) + "]\n")
         return text, {"seed_pass_through": f"skipped: {e}"}
     L = ["/-- statement skeleton of `temp_seed` (`seed` only when `rng.seed` gets exactly the seed parameter) -/",
          "def tempSeed : List String := [" + ", ".join(_q(x) for x in t["temp_seed"]) + "]\n",
@@ -491,7 +492,12 @@ def _seed_extra():
     L.append("]\n")
     L.append("/-- steps of the bisection loop of `VariableDensityPoissonMaskFunc.poisson`, in source order -/")
     L.append("def poissonOrder : List String := [" + ", ".join(_q(x) for x in t["poisson_order"]) + "]\n")
-    return "\n".join(L), {"poisson_crop_before_disc": "translated", "seed_pass_through": "translated", "state_writes(instance/class/module/memo decorators)": "translated",
+    L.append("/-- the producers of (mask, ACS) pairs outside subsample.py (`CreateSamplingMask.__call__`) and `integerize_seed`: (fact, holds) -/")
+    L.append("def callSitePlumbing : List (String × Bool) := [")
+    for i, (txt, ok) in enumerate(t["plumbing"]):
+        L.append(f"  ({_q(txt)}, {_b(ok)})" + ("," if i + 1 < len(t["plumbing"]) else ""))
+    L.append("]\n")
+    return "\n".join(L), {"call_site_plumbing": "translated", "poisson_crop_before_disc": "translated", "seed_pass_through": "translated", "state_writes(instance/class/module/memo decorators)": "translated",
                           "call_plan": "translated", "seed_param_and_choice_order": "translated"}
 
 
